@@ -9,7 +9,7 @@
 (***************************************************************************)
 EXTENDS JetExec, Json, SequencesExt
 
-cNames == {"s", "x1", "x2", "x3", "k", "v", "e", "p", "r", "g", "q1", "q2", "q3", "a", "b", "c"}
+cNames == {"s", "x1", "x2", "x3", "k", "v", "e", "p", "r", "g", "q1", "q2", "q3", "a", "b", "c", "lower"}
 
 T(id)            == St("text", id)
 P(id, e)         == [St("print", id) EXCEPT !.e = e]
@@ -40,6 +40,7 @@ IsSetExec(id, t) == [St("issetexec", id) EXCEPT !.n2 = t]
 ExecLetCx(id, n, t, cx) == [St("execlet", id) EXCEPT !.n = n, !.n2 = t, !.e = cx]
 IncIf(id, t)     == [St("incif", id) EXCEPT !.n2 = t]
 Ret(id, e)       == [St("return", id) EXCEPT !.e = e]
+BCall(n)         == Ex("bcall", n)          \* n("AbC") with n the name of a built-in function
 Api(id, f, n, e) == [St("api", id) EXCEPT !.f = f, !.n = n, !.e = e]
 
 Tm(name, ext, imps, body) == [name |-> name, ext |-> ext, imps |-> imps, body |-> body]
